@@ -1,10 +1,25 @@
 import ast
 
-from pyrefact import core, processing
+from pyrefact import core, parsing, processing
+
+
+def _uses_pandas(root: ast.Module) -> bool:
+    """The rules know dataframes and series by .loc, .iloc and .iterrows: other objects have these too"""
+    if any(
+        (module or "").split(".")[0] == "pandas" for module in parsing.module_dependencies(root)
+    ):
+        return True
+
+    # If pd.something is referenced anywhere, assume it uses pandas as well.
+    template = core.compile_template(("pd.{{something}}", "pandas.{{something}}"))
+    return any(core.walk(root, template))
 
 
 @processing.fix
 def replace_loc_at_iloc_iat(source: str) -> str:
+    if not _uses_pandas(core.parse(source)):
+        return
+
     yield from processing.find_replace(
         source, "{{value}}.loc[{{i}}]", "{{value}}.at[{{i}}]", i=ast.Constant, transaction=0
     )
@@ -32,6 +47,8 @@ def replace_loc_at_iloc_iat(source: str) -> str:
 @processing.fix
 def replace_iterrows_index(source: str) -> str:
     root = core.parse(source)
+    if not _uses_pandas(root):
+        return
 
     target_template = ast.Tuple(elts=[core.Wildcard("new_target", object), ast.Name(id="_")])
     iter_template = ast.Call(
@@ -53,6 +70,8 @@ def replace_iterrows_index(source: str) -> str:
 @processing.fix
 def replace_iterrows_itertuples(source: str) -> str:
     root = core.parse(source)
+    if not _uses_pandas(root):
+        return
     replacements = {}
     target_template = ast.Tuple(
         elts=[ast.Name(id="_"), ast.Name(id=core.Wildcard("new_target_id", str))]
